@@ -2,6 +2,7 @@ import SV.Wire
 import SV.Spec.JsonSchemaWire
 import SV.Spec.C03
 import SV.Model.C03Cases
+import SV.Spec.C03Cases
 open SV SV.Wire SV.Model.C03 SV.Spec.C03 SV.Spec.JsonSchema
 
 /-- ordered objects travel as {"$o": [[k, v], …]} (the wire layer sorts plain objects) -/
@@ -92,7 +93,8 @@ def encCase (c : Case) : Json :=
         ("contents", .obj (c.contents.map fun (k, x) => (k.render, encContent x))),
         ("desc", .str c.desc.render),
         ("parameter", match c.parameter with | some p => .str p | none => .null),
-        ("parameter_location", match c.parameterLocation with | some p => .str p | none => .null)]
+        ("parameter_location", match c.parameterLocation with | some p => .str p | none => .null),
+        ("spec", jobj [("label_ok", .bool (caseLabelOk c)), ("comps_ok", .bool (compsOk c))])]
 
 def handle : Handler := fun op a => do
   match op with
@@ -102,7 +104,11 @@ def handle : Handler := fun op a => do
     let orc ← asList decAns (a.getD "orc" (.arr []))
     let vz ← decVariant (a.getD "vz" .null)
     let vx ← decVariant (a.getD "vx" .null)
-    return encR (positiveNumber vz vx kvs { orc := orc, seen := [] })
+    let r := positiveNumber vz vx kvs { orc := orc, seen := [] }
+    let vs ← asArr (a.getD "judge" (.arr []))
+    match encR r with
+    | .obj fields => return .obj (fields ++ [("valid", .arr (vs.map fun v => .bool (validF 64 {} (.obj kvs) (decOrd v))))])
+    | j => return j
   | "cover" =>
     -- {schema, orc:[…], vz, vx, location, pos, neg, fuel?}
     let schema := decOrd (← field a "schema")
